@@ -26,7 +26,7 @@ CHECKS["C05"] = dict(
     technique="Coq proof (simulation: write-through cache over a dictionary-like store refines the dictionary, for all histories/budgets) + differential execution of real backends against the dictionary spec inside Coq + AST source facts",
     text="Theorem cache_layer_refines_dict (Storage/LayerProofs.v): StorageBackendBase with a MemoryCache of any budget answers every operation of every history exactly as the dictionary keyed by (qualified name, arg hash), "
          "instantiated with the facts extracted from the current source (Gen/Facts*.v); prefix_scope makes f/f1 and #1/#10 safe. The filesystem (shared / separate metadata path, with / without cache) and memory backends are run on generated histories "
-         "and fixed scenarios; every answer, the cache's usage / resident set and store touches are compared with the model by vm_compute. Also: the same bytes memoized again after forget-everything / forget-function, custom metadata (plain and stored with the data) across re-memoizing the same result, listings with a limit.",
+         "and fixed scenarios; every answer, the cache's usage / resident set and store touches are compared with the model by vm_compute. Also: the same bytes memoized again after forget-everything / forget-function, custom metadata (plain and stored with the data) across re-memoizing the same result, listings with a limit, sibling calls with equal metadata.",
     note="The data-source stack below the cache (directory tree emulation of versioned objects, metadata paths) is represented by its dictionary specification in the theorem and tied to the code by differential execution only. "
          "Hypothesis wfop: qualified names contain no '/'. Reads go through a freshly fetched memento, as the runner does.",
     ref="6/C05")
@@ -34,7 +34,7 @@ CHECKS["C07"] = dict(
     technique="Coq proof (invariants of the content-addressed versioned store by induction over histories) + whole-store scan after every operation compared with the model's object table by vm_compute",
     text="Theorems over Storage/VStore.v for every history: bytes under a content key hash to it (digest = arbitrary function, no injectivity assumed), a content key never has two versions, stored objects are never modified or removed "
          "by later memoizes / override-key rewrites / null-with-override / forgets of calls and functions, a memento keeps reading its bytes, forget deletes nothing from the data store. The real filesystem backends are driven with shared override keys "
-         "and repeated contents; after every step all files are re-hashed and the object table is compared with the model. Also: interrupted blob / link writes followed by a dedup store; partitions with repeated members; a live memento keeps reading ITS value (two calls under one override key, evicted, read in turn); override keys containing '#'.",
+         "and repeated contents; after every step all files are re-hashed and the object table is compared with the model. Also: interrupted blob / link writes followed by a dedup store; partitions with repeated members; a live memento keeps reading ITS value (two calls under one override key, evicted, read in turn); override keys containing '#'; a partition stored under an override key and handed on by another function is content-addressed there.",
     note="Fault-free histories (crash points are C08). uuid4 freshness is an oracle (version counter). forget_everything on a shared data/metadata tree removes the data as well (by design of the recursive delete) and is excluded from immutability.",
     ref="6/C07")
 CHECKS["C19"] = dict(
@@ -49,7 +49,7 @@ CHECKS["C08"] = dict(
     technique="Coq proof by reflection over a finite store model (closed reachable set under calls / crash prefixes / I/O faults, every state good => all histories) for the configuration extracted from the source + exhaustive fault injection on the real filesystem backend compared with the model's prediction",
     text="Theorem crash_safe_all_histories: for any sequence, of any length, of calls by two functions producing the same bytes, each completing or cut at any primitive file operation (link files caught empty / at a directory boundary / elsewhere), "
          "every later call returns the value, raises nothing, and the next one is served from the store; instantiated with the reader / write-order facts extracted from the current source, with refutation theorems for the exists() reader, link-before-object and memento-before-data. "
-         "Implementation: every mutating file-system call of the memoizing call x {death before, ENOSPC before, death / ENOSPC mid-write with 4 truncation shapes} x scenarios, restart, recovery calls F,F,G,G; outcomes compared with the model and with the property directly. Also: after an injected crash nothing more reaches the file system (clean-up code runs but its file operations are refused, as after a real process death); a faulted write when another function already memoized the same result.",
+         "Implementation: every mutating file-system call of the memoizing call x {death before, ENOSPC before, death / ENOSPC mid-write with 4 truncation shapes} x scenarios, restart, recovery calls F,F,G,G; outcomes compared with the model and with the property directly. Also: after an injected crash nothing more reaches the file system (clean-up code runs but its file operations are refused, as after a real process death); a faulted write when another function already memoized the same result; raw io.FileIO writers see a short write followed by an error.",
     note="Fault granularity: Python-level file-system calls; file content after a fault is old, empty or a prefix. Not modelled: power loss with unsynced page cache, torn renames, concurrent writers. "
          "Restart is simulated in-process by rebuilding all backend objects. The model covers the plain content-addressed value path; null / exception / override / partition / nested scenarios are checked on the implementation only.",
     ref="6/C08")
@@ -71,7 +71,7 @@ CHECKS["C04"] = dict(
          "positional / keyword arguments of the call (any signature, any lengths); the encoding that is hashed is injective on normalized (tag-free) values of any type and depth, two normalized values have the same normalized JSON value IF AND ONLY IF their canonical forms (dictionary members in key order at every depth) coincide, and injectivity is refuted without the restriction (a dictionary spelled like a tagged date IS that date: the implementation normalizes it, checked); "
          "the body receives exactly the kwargs the key was computed from; non-empty context args are a member of the hashed dictionary. "
          "The model prints the exact pre-image bytes (Python's ensure_ascii escaping, surrogate pairs, decimal integers); the harness hashes them with hashlib and compares with the implementation for generated bindings in paired presentations, "
-         "and checks hit / miss and minimally different bindings directly. Also: values equal for Python but different once normalized (+-0.0, equal instants with different offsets) incl. on a re-opened store, batch presentations under context arguments, redefinition with reordered parameters, var-keyword signatures, several partials derived from one keyword-partial.",
+         "and checks hit / miss and minimally different bindings directly. Also: values equal for Python but different once normalized (+-0.0, equal instants with different offsets) incl. on a re-opened store, batch presentations under context arguments, redefinition with reordered parameters, var-keyword signatures, several partials derived from one keyword-partial, function-valued arguments carrying call modifiers, negative fractional UTC offsets, a function stacked on a pass-through decorator.",
     note="PARTIAL: injectivity ('differs whenever a bound value or its type differs') is proved for the JSON value that is hashed (C04_encoding_injective_partial, C04_same_hashed_value_iff_same_canonical_value_partial: all normalized values), not for its text rendering nor SHA-256: that last step is checked on the exact pre-image bytes of generated "
          "minimally-different bindings. Partial keywords combined with call positionals (functools-style skipping of bound names) are covered by the general all-keyword theorem and the differential check, not by a flattening theorem. Float repr and isoformat are oracles.",
     ref="6/C04")
@@ -79,7 +79,7 @@ CHECKS["C11"] = dict(
     technique="Coq proof (decode (encode x) = x by nested structural induction for arguments, function references, references with arguments and mementos; key#version split; emitted documents satisfy the frozen format predicate) + byte-exact differential check of the emitted JSON + implementation round trip",
     text="Theorems over Codec/Wire.v: decode_arg/decode_fnref/decode_memento invert the encoders for every well-formed value of any nesting depth (all 12 components of a memento), the argument hash recomputed from decoded arguments is the original, "
          "key#version splits back at the last '#' (refuted for the first '#'; the source fact says rfind), every emitted memento has exactly the frozen member names in the frozen order and typed {type,value} arguments. "
-         "Implementation: json.dumps(encode_memento(m)) is compared byte for byte with the model's rendering; encode -> dumps -> strict RFC 8259 parse -> decode is compared component-wise. Also: one effective call recorded in two calling conventions.",
+         "Implementation: json.dumps(encode_memento(m)) is compared byte for byte with the model's rendering; encode -> dumps -> strict RFC 8259 parse -> decode is compared component-wise. Also: one effective call recorded in two calling conventions; function arguments whose partial arguments are Python-equal values of different types.",
     note="dateutil / isoformat are oracles (isoformat never ends in 'Z'); from_qualified_name is the identity on a reference's parts here (its behaviour is C12). numpy-array and bytes arguments are outside the modelled domain. "
          "Known finding: NaN / Infinity tokens are not RFC 8259 JSON.",
     ref="6/C11")
@@ -99,7 +99,7 @@ CHECKS["C02"] = dict(
     text="Theorems over Runner/Run.v for every call DAG, every store consistent with it and every context: a memoized call returns exactly what an un-memoized execution returns (values and memoized exceptions), a later call executes no body, consistency is preserved; "
          "with C05's theorem the same holds behind a cache of any size, and forgetting removes exactly that call. Implementation: DAGs on memory / filesystem / filesystem+cache (two sizes) vs the model; generated values over the documented result domain "
          "(incl. bool vs int, date vs timestamp, float32 vs float64, -0.0/NaN, empty containers, non-ASCII, numpy dtypes/shapes, pandas objects, partitions, results larger than the cache) x backends x {normal, ignore_result, force_local}: body counts, equality and type of first and later values, "
-         "recorded result type vs value read back, forget; exception record/replay for rebuildable / non-rebuildable / function-local / nested / not-to-be-memoized classes. Also: on-disk partitions, numpy float scalars, pandas Timestamps (result type judged by an independent oracle), results dropped and collected between calls, exceptions of function-local classes, an exception recorded by one process and replayed by another in which the defining module is not imported yet; the first (computing) call raises the body's own exception.",
+         "recorded result type vs value read back, forget; exception record/replay for rebuildable / non-rebuildable / function-local / nested / not-to-be-memoized classes. Also: on-disk partitions, numpy float scalars, pandas Timestamps (result type judged by an independent oracle), results dropped and collected between calls, exceptions of function-local classes, an exception recorded by one process and replayed by another in which the defining module is not imported yet; the first (computing) call raises the body's own exception; results carrying named time zones.",
     note=RUN_NOTE + "Pickle / pandas / numpy fidelity is an oracle for the model (modelled, not verified) and is what the value-domain part samples.",
     ref="6/C02")
 CHECKS["C10"] = dict(
@@ -112,7 +112,7 @@ CHECKS["C10"] = dict(
 CHECKS["C15"] = dict(
     technique="Coq proof (flipping 'make the sub-calls as one batch' anywhere leaves the whole run result unchanged: outcomes, store, executions, mementos, for all programs and stores) + root-level call_batch / map_over_range vs individual calls on twin stores",
     text="Theorem batch_eq_elementwise (no assumption on the store): bulk pre-check then element-by-element equals one-after-the-other for any mix of memoized, new, duplicated and failing elements; elements are transparent and run at most once. "
-         "Implementation: batch-heavy DAGs vs the model; root-level batches (0-6 elements, duplicates, failures) x pre-memoized subsets x raise_first_exception x context args compared with individual calls on a twin store by position, store state and executions; map_over_range over lists, ranges and one-shot iterables with partial prefixes. Also: batches mixing Python-equal values (1 / 1.0 / True), elements whose result cannot be stored, several different pre-memoized elements (failures among them) on every kind of backend.",
+         "Implementation: batch-heavy DAGs vs the model; root-level batches (0-6 elements, duplicates, failures) x pre-memoized subsets x raise_first_exception x context args compared with individual calls on a twin store by position, store state and executions; map_over_range over lists, ranges and one-shot iterables with partial prefixes. Also: batches mixing Python-equal values (1 / 1.0 / True), elements whose result cannot be stored, several different pre-memoized elements (failures among them) on every kind of backend, raise_first_exception with a later failure memoized beforehand.",
     note=RUN_NOTE, ref="6/C15")
 CHECKS["C16"] = dict(
     technique="Coq proof (the effective context is a component of every key; recorded sub-call keys = inherit-or-override of the caller's context, for all programs / stores) + context-heavy DAGs vs the model + direct separation / prevention checks",
@@ -125,7 +125,7 @@ CHECKS["C17"] = dict(
     technique="Coq proof (index of a stored merge chain = overlay of the links' own dictionaries, by induction on the chain; own/from-parent flags) + source facts (which index an in-process parent contributes) + differential runs over chains x parent provenances x staging kinds",
     text="Theorems over Storage/Partition.v: a partition reads back with exactly its keys and values; one merge = parent entries marked from_parent overlaid by own keys; for chains of any length, whether each parent was read back from the store or taken from this process, "
          "lookup in the stored index = the overlay of the links (own keys win, parent-only keys remain); refutation when an in-process parent only remembers the keys it wrote itself. Implementation: random chains of length 0-4 with overlapping keys, in-memory / on-disk staging, "
-         "parent provenance {first call in this process, disk, memory cache}; every link read back four ways and compared with the model and the overlay law; parents re-read after their children are stored. Also: partitions handed on unchanged by another function, default-factory staging dicts, empty middle links, pandas members, parents taken from the memory cache as written (never re-read), parent-only keys holding None; 'stored' is judged by a fresh backend having nothing to execute; members that are partitions themselves; chains alternating between two clusters with different stores (theorems over Storage/PartitionStores.v).",
+         "parent provenance {first call in this process, disk, memory cache}; every link read back four ways and compared with the model and the overlay law; parents re-read after their children are stored. Also: partitions handed on unchanged by another function, default-factory staging dicts, empty middle links, pandas members, parents taken from the memory cache as written (never re-read), parent-only keys holding None; 'stored' is judged by a fresh backend having nothing to execute; members that are partitions themselves; chains alternating between two clusters with different stores (theorems over Storage/PartitionStores.v); on-disk partitions built by assigning keys more than once.",
     note="Member values are small ints / strings / arrays / None identified by embedded ids; pickle fidelity of members is C02's oracle.",
     ref="6/C17")
 
@@ -141,7 +141,7 @@ CHECKS["C03"] = dict(
     technique="Coq proof (the digest input = rule contents in canonical key order is invariant under any reordering of reference iteration; keys identify rules) + differential fresh-interpreter runs across PYTHONHASHSEED / import order / definition order / query order, rule set vs model, second process executes no body",
     text="Theorems over Version/Rules.v: two presentations of a program that differ only in the order in which each function's references are iterated feed the same sequence of rule contents to the digest (collect is order-dependent as a list, the sorted list is not); rule sort keys are injective. "
          "Implementation: generated programs (memento / plain functions, variables, undefined names, cycles, aliases, module attributes, int-set and string-set constants, defaults, nested code) are loaded in fresh interpreters under different hash seeds, import orders, definition orders and version-query orders; "
-         "versions, ordered rule lists and per-rule hashes must be identical, the rule set must be the model's, the version must be the digest of rule hashes in key order, and a second process against the same store must execute no body. Also: a second package with an out-of-scope helper, unorderable set globals, object-valued defaults, lambda helpers, plain helpers behind functools.partial / lru_cache objects.",
+         "versions, ordered rule lists and per-rule hashes must be identical, the rule set must be the model's, the version must be the digest of rule hashes in key order, and a second process against the same store must execute no body. Also: a second package with an out-of-scope helper, unorderable set globals, object-valued defaults, lambda helpers, plain helpers behind functools.partial / lru_cache objects, several functions reaching the same attributes of another module.",
     note="PYTHONHASHSEED values are sampled. sha256 and the byte-level content of each rule hash are not modelled (contents are abstract numbers); per-rule hashes are compared between processes instead.",
     ref="6/C03")
 
@@ -151,7 +151,7 @@ CHECKS["C01"] = dict(
          "for any version function under which equal versions imply equal behaviour and any history of editions and calls against a persistent store, the memoizing evaluator (look-ups at every memento function, nested results stored) returns exactly what un-memoized evaluation of the current edition returns (invariant over the store); "
          "fixed-width concatenation is injective; refutations: defaults not hashed, variable-width rule hashes. Source facts: defaults hashed, explicit versions hashed to the common width. "
          "Implementation: generated programs x edit histories (bodies, constants incl. swapped constants, defaults, keyword-only defaults, set / string-set / tuple constants, nested code, call edges, variable values, explicit versions) delivered to fresh interpreters against one persistent store and inside one interpreter (reload / exec / setattr); "
-         "every call compared with plain undecorated execution of the current edition (or UndeclaredDependencyError); every pair of editions: implementation's version-changed verdict = model's. Also: a second package (helpers of another package's memento function), nested scopes named like globals, builtins shadowed in the running process, object-valued defaults, lambda helpers, string literals inside generator expressions, same-named variables of two modules, helpers named only in the header (default value) of their user, dependencies declared by hand and re-bound in the running process, hidden calls of already memoized functions, tuple-valued and integer-keyed module variables.",
+         "every call compared with plain undecorated execution of the current edition (or UndeclaredDependencyError); every pair of editions: implementation's version-changed verdict = model's. Also: a second package (helpers of another package's memento function), nested scopes named like globals, builtins shadowed in the running process, object-valued defaults, lambda helpers, string literals inside generator expressions, same-named variables of two modules, helpers named only in the header (default value) of their user, dependencies declared by hand and re-bound in the running process, hidden calls of already memoized functions, tuple-valued and integer-keyed module variables, lists / dictionaries edited in place in the running process.",
     note="Body semantics is abstract in the model (any function of code, defaults and referenced values); sha256 truncation is treated as injective; symbols of the model are invocations (programs numbered topologically = recursion terminates). Histories are sampled.",
     ref="6/C01")
 
